@@ -49,7 +49,7 @@ func (s *Swarm) VerifName() mesh.PeerName { return s.name }
 func (s *Swarm) VerifState() *event.State { return s.state }
 
 // VerifTouch marks a peer as active (as Swarm.update does for reachable peers).
-func (s *Swarm) VerifTouch(name mesh.PeerName) { s.members.Touch(name) }
+func (s *Swarm) VerifTouch(name mesh.PeerName) { s.touch(name) }
 
 // VerifSilence makes a known peer look inactive (no activity for longer than the window).
 func (s *Swarm) VerifSilence(name mesh.PeerName) {
